@@ -576,6 +576,9 @@ class AbstractRowWriter(object):
                 self._target_path = target.name
             except AttributeError:
                 self._target_path = "<io>"
+            if self._target_path is None:
+                # For example an unnamed temporary file.
+                self._target_path = "<io>"
             self._target_stream = target
         self._location = errors.Location(self.target_path, has_cell=True)
 
